@@ -399,7 +399,7 @@ fn gen_input(rng: &mut Rng, names: &[String]) -> Input {
 }
 
 pub fn run(rep: &mut Report) {
-    rep.rule = "logger names exhaustively over {a,b,:} up to length 6 (1093 names) built singly (strict + lossy), plus random \
+    rep.rule = "logger names exhaustively over {a,b,:} up to length 6 (1093 names) built singly (strict + lossy), names with colon runs of 3..65538 (around 16, 128, 256, 512, 1024, 65536) in the middle, at the end and at the start, plus random \
         builder inputs (0-5 appenders with duplicates, 0-5 loggers with duplicate / ill-formed names, dangling references in \
         root, kept and rejected loggers); every returned Config is installed and probed against the routing model; \
         non-trivial = input has at least one defect or at least one logger; distinct = distinct builder input".to_owned();
@@ -423,6 +423,29 @@ pub fn run(rep: &mut Report) {
         if idx == 40 || idx == 300 {
             rep.sample(json!({"logger_name": name, "reference_class": format!("{:?}", class)}));
         }
+    });
+    // colon runs around the widths of small counters
+    let mut long_names: Vec<String> = vec![];
+    for k in [3usize, 7, 15, 16, 17, 127, 128, 129, 254, 255, 256, 257, 258, 259, 511, 512, 513, 514, 1023, 1025, 65535, 65536, 65537, 65538] {
+        let run = ":".repeat(k);
+        long_names.push(format!("a{}b", run));
+        long_names.push(format!("a{}", run));
+        long_names.push(format!("{}b", run));
+        long_names.push(format!("a::b{}c::d", run));
+    }
+    let long_ref = &long_names;
+    run_cases(rep, "long-colon-run", long_names.len() as u64, |rep, rng, idx| {
+        let name = &long_ref[idx as usize];
+        let class = classify(name);
+        rep.count("names_with_long_colon_runs", 1);
+        let inp = Input {
+            appenders: vec!["A".into()],
+            root_level: LevelFilter::Info,
+            root_refs: vec!["A".into()],
+            loggers: vec![InLogger { name: name.clone(), level: LevelFilter::Debug, additive: true, refs: vec!["A".into()] }],
+        };
+        rep.case(&format!("long|{}|{}", name.len(), idx), true);
+        check_input(rep, &inp, rng, class == NameClass::DontCare);
     });
     let n = if rep.tier == "thorough" { 300_000 } else { 30_000 };
     run_cases(rep, "input", n, |rep, rng, idx| {
